@@ -34,7 +34,11 @@ RULE = ("kinds: the variant list of enum ErrorKind read from kind.rs.  faultfree
         "(fault-free), or with exactly one fault of a known type (unknown long/short/word, required argument "
         "deleted, requirement of a present argument deleted, conflicting argument added, non-repeatable argument "
         "repeated, one value too few / none / too many, value outside the integer range or not a number, required "
-        "subcommand dropped), or with one help/version request.  random: vp/gen_cmd.py trees with every feature x "
+        "subcommand dropped), or with one help/version request; plus (gen_chain) 3-5 one-value options with a "
+        "`requires` chain of 2-3 arguments and `requires_if` rules on the arguments BEHIND the root of the chain x "
+        "lines over the values {v,w,z} (the rule's value on the root only / the carrier only / both / neither), "
+        "classified fault-free or MissingRequiredArgument from the documented reading of requires_if ('if THIS "
+        "argument has the value').  random: vp/gen_cmd.py trees with every feature x "
         "mutated lines.  sugg/dym/flag: near-miss spellings at edit distance 1-2 of defined names.  A case is "
         "non-trivial when the configuration is accepted and (fault streams) the line is rejected / (faultfree) "
         "has at least two tokens after the program name; distinct = distinct case text.")
@@ -73,7 +77,13 @@ LEVEL_TEXT = ("Machine-checked theorems (Coq 8.16, closed under the global conte
               "subcommand chain (built subcommand, tail of the line) the rule named by the kind is broken -- "
               "MissingRequiredArgument: a matcher whose explicit entries are all accounted for by tokens of the line / "
               "declared environment values (faithful) lacks an id that a declaratively stated requirement rule "
-              "(rule_requires / req_by, no validator tables) asks for; ArgumentConflict: two accounted-for ids with a "
+              "(rule_requires / req_by, no validator tables) asks for -- and (C10_requirement_set_exact, after the repair "
+              "of Command::unroll_arg_requires) the validator's requirement set IS the set of ids demanded by that rule, "
+              "both inclusions, for every command and matcher: requires/requires_if rules of an explicitly present "
+              "argument that hold of its own occurrence, closed under unconditional requires (C10_req_by_is_C03_ReqBy: "
+              "the same relation as C03's); C10_requires_if_chain_before_fix / _fixed: the pre-repair function demanded "
+              "y for `--aa v --bb w` under a.requires(b), b.requires_if(v,y), the repaired model accepts that line; "
+              "ArgumentConflict: two accounted-for ids with a "
               "declared conflict (C03's `declares`), an exclusive argument beside another, a repeated non-overriding Set "
               "argument, or a word/subcommand under args_conflicts_with_subcommands; TooMany/TooFew/WrongNumberOfValues: "
               "an argument named by a token of the line whose occurrence (values = pieces of tokens) has a count outside "
@@ -808,11 +818,160 @@ def directed_faultfree():
             lines += [[b"a", b"out"], [b"a", b"b", b"out"]]
         for ln in lines:
             out.append(annotate(case_of(c, [b"prog"] + ln), ["ok"], "none"))
+    # an exclusive flag, or a flag that conflicts with them, WAIVES required positionals -- all of them, also when there
+    # are two or more (seeded change seed2/C10-1: the 'preceding positionals' display loop re-added waived ones)
+    for how in ("exclusive", "conflicts"):
+        lst = {"id": b"list", "long": b"list", "action": "settrue", "flags": {"exclusive"} if how == "exclusive" else set()}
+        if how == "conflicts":
+            lst["conflicts"] = [b"src", b"dst", b"extra"]
+        c = {"name": b"p", "about": b"A:p", "groups": [], "aliases": [], "settings": [], "subs": [],
+             "args": [lst, {"id": b"v", "short": "v", "action": "count", "flags": set()},
+                      pos(b"src", flags={"required"}), pos(b"dst", flags={"required"}), pos(b"extra", flags={"required"})]}
+        lines = [[b"--list"], [b"a", b"b", b"c"], [b"-v", b"a", b"b", b"c"]]
+        if how == "conflicts":
+            lines.append([b"--list", b"-v"])
+        for ln in lines:
+            out.append(annotate(case_of(c, [b"prog"] + ln), ["ok"], "none"))
     c = {"name": b"p", "about": b"A:p", "groups": [], "aliases": [], "settings": ["allow_missing_positional"],
          "args": [pos(b"profile"), pos(b"target", flags={"required"})], "subs": [sub(b"run")]}
     for ln in ([b"web", b"run"], [b"web"], [b"prod", b"web", b"run"], [b"prod", b"web"], [b"web", b"run", b"--force"]):
         out.append(annotate(case_of(c, [b"prog"] + ln), ["ok"], "none"))
     return out
+
+
+# ------------------------------------------------ conditional rules behind a `requires` chain (round-2 finding, repaired)
+CH_IDS = [b"a", b"b", b"c", b"d", b"e"]
+CH_VALS = [b"v", b"w", b"z"]
+
+
+def finding_chain_cmd():
+    """the command of the finding: a.requires(b), b.requires_if("v", y)"""
+    return {"name": b"p", "groups": [], "subs": [], "settings": [], "aliases": [],
+            "args": [{"id": b"a", "long": b"aa", "flags": set(), "requires": [b"b"]},
+                     {"id": b"b", "long": b"bb", "flags": set(), "requires_if": [(b"v", b"y")]},
+                     {"id": b"y", "long": b"yy", "flags": set()}]}
+
+
+def chain_broken(c, occ):
+    """Written from the documentation of Arg::requires / Arg::requires_if ("if THIS arg has the value, the other is
+    required"), no conflicts / exclusive / groups in these commands so no exemption applies.
+    occ: id -> list of values of the explicitly present options.  -> list of (owner, rule, missing id)"""
+    out = []
+    for a in c["args"]:
+        if a["id"] not in occ:
+            continue
+        for t in a.get("requires", []):
+            if t not in occ:
+                out.append((a["id"], "requires", t))
+        for v, t in a.get("requires_if", []):
+            if v in occ[a["id"]] and t not in occ:
+                out.append((a["id"], "requires_if", t))
+    return out
+
+
+def chain_case(c, line):
+    """line: [(id, value)] in command-line order -> annotated case"""
+    byid = {a["id"]: a for a in c["args"]}
+    occ = {}
+    argv = [b"prog"]
+    for i, v in line:
+        occ.setdefault(i, []).append(v)
+        argv += [b"--" + byid[i]["long"], v]
+    broken = chain_broken(c, occ)
+    text = case_of(c, argv)
+    if broken:
+        return annotate(text, ["MissingRequiredArgument"], "missing_required_chain"), False
+    return annotate(text, ["ok"], "none"), True
+
+
+def directed_chain():
+    """the three lines of the finding: `--aa v --bb w` and `--aa z --bb w` break no rule, `--aa z --bb v` misses y"""
+    c = finding_chain_cmd()
+    ok, bad = [], []
+    for va, vb in ((b"v", b"w"), (b"z", b"w"), (b"z", b"v")):
+        case, good = chain_case(c, [(b"a", va), (b"b", vb)])
+        (ok if good else bad).append(case)
+    return ok, bad
+
+
+def gen_chain(rng, n):
+    """Commands of 3-5 one-value options with a `requires` chain of 2-3 arguments and `requires_if` rules on the
+    arguments BEHIND the root of the chain (sometimes on the root and on unrelated options too; targets anywhere,
+    cycles included); lines = random subsets (mostly closed under the unconditional rules) with values drawn from
+    {v, w, z} so that the conditional rule's value sits on the root, on the carrier, on both or on neither.
+    -> (fault-free cases, faulty cases, Counter)"""
+    ok, bad, dist = [], [], collections.Counter()
+    guard = 0
+    while len(ok) + len(bad) < n and guard < 10 * n + 100:
+        guard += 1
+        k = rng.randrange(3, 6)
+        args = []
+        for i in range(k):
+            a = {"id": CH_IDS[i], "long": CH_IDS[i] * 2, "flags": set()}
+            if chance(rng, 0.2):
+                a["action"] = "append"
+            args.append(a)
+        c = {"name": b"p", "groups": [], "subs": [], "settings": [], "aliases": [], "args": args}
+        order = list(range(k))
+        rng.shuffle(order)
+        chain_ix = order[:pick(rng, [2, 2, 3])]
+        for x, y in zip(chain_ix, chain_ix[1:]):
+            args[x]["requires"] = [args[y]["id"]]
+
+        def cond(a, m):
+            rules = []
+            for _ in range(m):
+                t = pick(rng, [b["id"] for b in args if b["id"] != a["id"]])
+                rules.append((pick(rng, [b"v", b"v", b"w"]), t))
+            a["requires_if"] = rules
+        for x in chain_ix[1:]:
+            if chance(rng, 0.9):
+                cond(args[x], pick(rng, [1, 1, 2]))
+        if chance(rng, 0.3):
+            cond(args[chain_ix[0]], 1)
+        for x in order[len(chain_ix):]:
+            if chance(rng, 0.25):
+                cond(args[x], 1)
+            elif chance(rng, 0.15):
+                args[x]["requires"] = [pick(rng, [b["id"] for b in args if b["id"] != args[x]["id"]])]
+        behind = sum(len(args[x].get("requires_if", [])) for x in chain_ix[1:])
+        if behind == 0:
+            continue
+        dist["cmd_chain_len_%d" % len(chain_ix)] += 1
+        for _ in range(8):
+            present = {a["id"] for a in args if chance(rng, 0.45)}
+            if chance(rng, 0.8):
+                present.add(args[chain_ix[0]]["id"])
+            if chance(rng, 0.75):
+                for _ in range(4):
+                    for a in args:
+                        if a["id"] in present:
+                            present |= set(a.get("requires", []))
+            if not present:
+                continue
+            line = []
+            for a in args:
+                if a["id"] in present:
+                    reps = pick(rng, [1, 1, 2]) if a.get("action") == "append" else 1
+                    line += [(a["id"], pick(rng, CH_VALS)) for _ in range(reps)]
+            rng.shuffle(line)
+            case, good = chain_case(c, line)
+            (ok if good else bad).append(case)
+            occ = {}
+            for i, v in line:
+                occ.setdefault(i, []).append(v)
+            # where does a conditional rule's value sit: on the root of a chain that reaches the carrier, on the carrier
+            root = args[chain_ix[0]]["id"]
+            for x in chain_ix[1:]:
+                for v, t in args[x].get("requires_if", []):
+                    if root in occ and args[x]["id"] in occ:
+                        on_root, on_car = v in occ[root], v in occ[args[x]["id"]]
+                        dist["value_on_%s" % ("both" if on_root and on_car else "root_only" if on_root else
+                                              "carrier_only" if on_car else "neither")] += 1
+                        if on_root and not on_car and t not in occ:
+                            dist["root_only_target_absent" + ("_faultfree" if good else "_other_fault")] += 1
+            dist["faultfree" if good else "missing_required_chain"] += 1
+    return ok, bad, dist
 
 
 def result_dist(store):
@@ -1357,6 +1516,15 @@ def streams(tier, rng):
     fd, fo = collections.Counter(), collections.Counter()
     out.append(Stream("flag", gen_flag(rng, n_flag, fd), oracle=flag_oracle(fo), area="errors",
                       nontrivial=lambda c, r: bool(r) and r.startswith("(flag"), describe={"dropped": fd, "observed": fo}))
+    # conditional rules behind a `requires` chain (generated last so that the streams above keep their cases)
+    ch_ok, ch_bad, ch_dist = gen_chain(rng, 30000 if big else 3000)
+    d_ok, d_bad = directed_chain()
+    for st in out:
+        if st.name in ("faultfree", "fault"):
+            extra = (d_ok + ch_ok) if st.name == "faultfree" else (d_bad + ch_bad)
+            st.cases = list(st.cases) + extra
+            st.describe["fault_types"]["requires_if_chain"] = len(extra)
+            st.describe["requires_if_chain"] = dict(ch_dist.most_common())
     return out
 
 
